@@ -467,8 +467,8 @@ Qed.
 
 (* an element of a display / subscript tuple: possibly starred *)
 Definition Est (x : expr) : Prop :=
-  forall rest, no_trailer rest = true -> stopsb 0 rest = true ->
-    ES (fun f => rd_star f (pp (POther None) x ++ rest)) (norm x, rest).
+  forall sl rest, no_trailer rest = true -> stopsb 0 rest = true ->
+    ES (fun f => rd_star f sl (pp (POther None) x ++ rest)) (norm x, rest).
 
 Definition Pst (e : expr) : Prop :=
   ok e = true -> (nst e = true -> Gst e /\ Ast e) /\ (forall y, e = EStarred y -> Gst y).
@@ -481,7 +481,7 @@ Proof. destruct x; try (left; reflexivity). right. eauto. Qed.
 
 Lemma E_of_P x : Pst x -> ok x = true -> Est x.
 Proof.
-  intros HP Hok rest Hnt Hst. destruct (HP Hok) as [H1 H2].
+  intros HP Hok sl rest Hnt Hst. destruct (HP Hok) as [H1 H2].
   destruct (nst_cases x) as [Hns|[y Hy]].
   - destruct (H1 Hns) as [G _].
     destruct (head_prim x (POther None) Hok Hns (prim_other _ Hns)) as [t [ts [Hp Hh]]].
@@ -490,7 +490,7 @@ Proof.
     + change (t :: ts ++ rest) with ((t :: ts) ++ rest). rewrite <- Hp.
       apply (R_of_G x G); [unfold L_test; lia|exact Hnt|exact Hst].
   - subst x. cbn [pp norm app]. apply ES_star_starred.
-    apply (R_of_G y (H2 y eq_refl)); [unfold L_bitor; lia|exact Hnt|exact Hst].
+    apply (R_of_G y (H2 y eq_refl)); [destruct sl; unfold L_bitor, L_test; lia|exact Hnt|exact Hst].
 Qed.
 
 Lemma elt_head x :
@@ -507,10 +507,10 @@ Proof. destruct L; reflexivity. Qed.
 
 Lemma elts_read es :
   Forall Est es -> forallb ok es = true ->
-  forall c tk rest, closes c tk = true ->
-    ES (fun f => rd_elts f c (commas (map (pp (POther None)) es) ++ tk :: rest)) (map norm es, rest).
+  forall sl c tk rest, closes c tk = true ->
+    ES (fun f => rd_elts f sl c (commas (map (pp (POther None)) es) ++ tk :: rest)) (map norm es, rest).
 Proof.
-  induction es as [|x es IH]; intros HF Hok c tk rest Hc.
+  induction es as [|x es IH]; intros HF Hok sl c tk rest Hc.
   - cbn. apply ES_elts_nil. exact Hc.
   - inversion HF as [|? ? Ex HF']; subst.
     cbn [forallb] in Hok. apply andb_true_iff in Hok. destruct Hok as [Hx Hes].
@@ -519,12 +519,12 @@ Proof.
     destruct (closer_follow c tk rest Hc) as [Hnt Hst].
     destruct (map (pp (POther None)) es) as [|b L] eqn:EL.
     + assert (es = []) by (destruct es; [reflexivity|discriminate]). subst es. cbn [map].
-      assert (Hr : ES (fun f => rd_star f (pp (POther None) x ++ tk :: rest)) (norm x, tk :: rest))
+      assert (Hr : ES (fun f => rd_star f sl (pp (POther None) x ++ tk :: rest)) (norm x, tk :: rest))
         by (apply Ex; [exact Hnt|apply Hst]).
       rewrite Hp in *. cbn [app] in *.
       apply ES_elts_last with (t2 := tk); [apply Hcl|exact Hr|exact Hc].
     + rewrite <- app_assoc. rewrite <- app_comm_cons.
-      assert (Hr : ES (fun f => rd_star f (pp (POther None) x ++ TComma :: commas (b :: L) ++ tk :: rest))
+      assert (Hr : ES (fun f => rd_star f sl (pp (POther None) x ++ TComma :: commas (b :: L) ++ tk :: rest))
                       (norm x, TComma :: commas (b :: L) ++ tk :: rest))
         by (apply Ex; reflexivity).
       rewrite Hp in *. cbn [app] in *.
@@ -864,19 +864,19 @@ Proof.
       destruct (elt_head x Hx) as [t [ts [Hp [Hrp _]]]].
       cbn [pp norm] in *. cbn [map]. rewrite commas_cons. norm_app.
       apply ES_primary with (a := ETuple (norm x :: map norm (y :: ys))) (r := rest); [|exact Hcont].
-      assert (Hr : ES (fun f => rd_star f (pp (POther None) x ++ TComma :: commas (map (pp (POther None)) (y :: ys)) ++ TRP :: rest))
+      assert (Hr : ES (fun f => rd_star f false (pp (POther None) x ++ TComma :: commas (map (pp (POther None)) (y :: ys)) ++ TRP :: rest))
                       (norm x, TComma :: commas (map (pp (POther None)) (y :: ys)) ++ TRP :: rest))
         by (apply Ex; reflexivity).
       cbn [map] in Hr. rewrite Hp in *. cbn [app] in *.
       apply ES_atom_tuple with (r2 := commas (pp (POther None) y :: map (pp (POther None)) ys) ++ TRP :: rest);
         [exact Hrp|exact Hr|].
-      apply (elts_read (y :: ys) HE' Hys CParen TRP rest). reflexivity.
+      apply (elts_read (y :: ys) HE' Hys false CParen TRP rest). reflexivity.
   - (* list *)
     apply P_nonop; [reflexivity|reflexivity|]. intros Hok pc rest res0 _ _ Hcont. cbn [ok] in Hok.
     pose proof (Forall_E es H Hok) as HE.
     cbn [pp norm] in *. norm_app.
     apply ES_primary with (a := EList (map norm es)) (r := rest); [|exact Hcont].
-    apply ES_atom_list. apply (elts_read es HE Hok CBracket TRB rest). reflexivity.
+    apply ES_atom_list. apply (elts_read es HE Hok false CBracket TRB rest). reflexivity.
   - (* set: displayed as set([...]) *)
     apply P_nonop; [reflexivity|reflexivity|]. intros Hok pc rest res0 _ _ Hcont. cbn [ok] in Hok.
     pose proof (Forall_E es H Hok) as HE.
@@ -888,7 +888,7 @@ Proof.
     apply ES_rd with (lhs := EList (map norm es)) (r1 := TRP :: rest); [|apply ES_climb_stop; reflexivity].
     apply ES_prefix_primary; [reflexivity|].
     apply ES_primary with (a := EList (map norm es)) (r := TRP :: rest); [|apply ES_trailers_stop; reflexivity].
-    apply ES_atom_list. apply (elts_read es HE Hok CBracket TRB (TRP :: rest)). reflexivity.
+    apply ES_atom_list. apply (elts_read es HE Hok false CBracket TRB (TRP :: rest)). reflexivity.
   - (* dict *)
     apply P_nonop; [reflexivity|reflexivity|]. intros Hok pc rest res0 _ _ Hcont. cbn [ok] in Hok.
     pose proof (Forall_D items H Hok) as HD. clear H.
@@ -969,7 +969,7 @@ Proof.
                                            (r2 := commas (map (pp (POther None)) (y :: ys)) ++ TRB :: rest);
           [| |exact Hcont].
         -- apply Ex; reflexivity.
-        -- apply (elts_read (y :: ys) HE' Hxs CBracket TRB rest). reflexivity.
+        -- apply (elts_read (y :: ys) HE' Hxs true CBracket TRB rest). reflexivity.
   - (* call *)
     apply P_nonop; [reflexivity|reflexivity|]. intros Hok pc rest res0 _ _ Hcont. cbn [ok] in Hok.
     apply andb_true_iff in Hok. destruct Hok as [Hok Hkws]. apply andb_true_iff in Hok. destruct Hok as [Hf Hargs].
